@@ -32,7 +32,7 @@ func init() {
 		Phases: []core.Phase{{Name: "strings", Build: "instr", Fn: c04RunStrings}, {Name: "edits", Build: "instr", Fn: c04RunEdits}},
 		Judge:  c04Judge,
 		Assumptions: []string{
-			"the grammar is the one transcribed in mc/ref (DESIGN.md appendix B); where it is silent or implementations legitimately differ the recogniser answers UNSURE and the string is counted, not judged: whitespace inside [*] and .* and before a call's parenthesis, let/in as identifiers, lone surrogate escapes, raw control characters in quoted identifiers, integer literals beyond 64 bits",
+			"the grammar is the one transcribed in mc/ref (DESIGN.md appendix B); where it is silent or implementations legitimately differ the recogniser answers UNSURE and the string is counted, not judged: let/in as identifiers, lone surrogate escapes, integer literals beyond 64 bits",
 			"strings that are in the grammar but statically invalid (unknown function, wrong arity, & in a value position, step 0) must fail with that static category (see C08)",
 		},
 	})
